@@ -199,10 +199,36 @@ class Universe:
                 raise MachineryError("shipped parameter set %s is not over %s" % (name, grp))
         else:
             G = self.group(grp)
+            if (M, N, S) == (b"M", b"N", b"symmetric") and (grp in TOY_INT or grp in TOY_CURVES):
+                M, N, S = self.toy_seeds(grp)
             P = sp.params._Params(G, M=M, N=N, S=S)
         self.params[name] = P
         self.pdesc[name] = {"grp": grp, "M": hx(M), "N": hx(N), "S": hx(S)}
         return P
+
+    def toy_seeds(self, grp):
+        """Seeds for the default parameter set of a toy group.  On tiny integer
+        groups the library's default seeds may hit finding F7 (arbitrary_element
+        returns the identity or fails its assertion); the first seeds of the
+        sequence M, M1, M2, ... that give three distinct non-identity elements
+        are used instead.  This selects inputs; it computes no expected value."""
+        G = self.group(grp)
+        zero = G.Zero.to_bytes()
+        seeds, seen = [], set()
+        for base in (b"M", b"N", b"symmetric"):
+            for k in range(1000):
+                seed = base if k == 0 else base + str(k).encode()
+                try:
+                    e = G.arbitrary_element(seed).to_bytes()
+                except Exception:
+                    continue
+                if e != zero and e not in seen:
+                    seen.add(e)
+                    seeds.append(seed)
+                    break
+            else:
+                raise MachineryError("no usable seed for %s" % grp)
+        return tuple(seeds)
 
     def header(self):
         return {"groups": dict(self.gdesc), "params": dict(self.pdesc)}
